@@ -741,11 +741,46 @@ def h12(ctx, rid):
         ctx.ok(rid, 'length-changes-only-by-writes', '', 'no preallocation / truncation call in %d functions' % n, nontrivial=False, queries=n)
 
 
+def h13(ctx, rid):
+    """the id counter is seeded strictly above the largest id in use: the bodies that seed `next_blob_id` (store / fetch_max)
+    compute `max + 1` with the checked `+` - no saturating or wrapping addition in them or in their closures.  At the boundary a
+    saturating add yields the largest id itself: the next blob would get the name of a file that exists and be appended to it"""
+    prog = ctx.prog
+    n = 0
+    bad = None
+    for f in prog.fns.values():
+        seeds = [c for c in f.calls if c.bb in f.reachable() and c.name in ('store', 'fetch_max') and c.path.startswith('std::sync::atomic::Atomic')
+                 and prims.receiver_field(f, c) == 'next_blob_id']
+        if not seeds:
+            continue
+        n += 1
+        fam = set(prog.family(f.id))
+        # closures built in the body whose definition lives elsewhere (the closure of an inlined helper)
+        for i in f.reachable():
+            for st in f.blocks[i]['s']:
+                if st['k'] == 'a' and st['r']['k'] == 'agg' and st['r'].get('def'):
+                    fam.add(st['r']['def'])
+        for gid in fam:
+            g = prog.fns.get(gid)
+            if g is None:
+                continue
+            for c in g.calls:
+                if c.bb in g.reachable() and c.name in ('saturating_add', 'wrapping_add', 'overflowing_add'):
+                    bad = c
+    if n < 2:
+        raise core.AnchorLost('bodies that seed next_blob_id: %d' % n)
+    if bad:
+        ctx.bad(rid, 'seed-strictly-above-max', bad.where(), 'a body that seeds the id counter uses `%s`: for the largest representable id the counter is seeded with an id that is in use' % bad.name)
+    else:
+        ctx.ok(rid, 'seed-strictly-above-max', '', 'no saturating / wrapping addition in %d seeding bodies' % n, nontrivial=False, queries=n)
+
+
 RULES = [
     Rule('C07.H1', 'every raw destructive OS primitive call site lies in the owner module of its kind', h1, 8),
     Rule('C07.H2', 'in-crate positional write wrappers are called only by index-file builders, at constant offset 0, on the file they created', h2, 1),
     Rule('C07.H11', 'a two-part record is written front to back', h11, 1),
     Rule('C07.H12', 'no preallocation or truncation call changes the length of a blob file', h12, 1),
+    Rule('C07.H13', 'the id counter is seeded with max + 1 computed by the checked addition', h13, 1),
     Rule('C07.H3', 'offsets of appends originate only in FileInner.size.fetch_add; the size counter is only loaded / fetch_add-ed', h3, 5),
     Rule('C07.H4', 'truncating create, remove and index-file creation act on paths derived from with_extension("index")', h4, 4),
     Rule('C07.H9', 'the tools never truncate their own input: in-place recovery renames first (C16.W3 instances)', h9, 2),
